@@ -21,6 +21,11 @@ CHECKS = {
             "The emission loop of orderer() is proved, for every dependency map, to yield a permutation in dependency order or to refuse a cycle; "
             "get_children/get_object_classes are tied to the code by the generated paths table and by running the model on the identity graph of random element trees.",
             "full for the loop; the child enumeration is modelled and checked by correspondence"),
+    "C20": ("Coq theorem by induction on the schema (parse_element returns an element => no refused keyword at any interpreted position), refused set and composition order regenerated from /repo, vm_compute correspondence + planting oracle",
+            "C20_never_silently_ignored / C20_document are proved for every schema, nesting depth, parse state and Unicode oracle over the refused set and the "
+            "composition-keyword order that the translator reads from /repo on every run; the model parser is tied to the code by running both on planted schemas; "
+            "recursive documents are exercised through the real main() (materialize and the recursion limit are runtime).",
+            "full for keywords (safety half proved; the error kind is checked by correspondence and the planting oracle); cycles partial"),
 }
 
 REASONS_PENDING = "check under construction in this session: not yet claimed"
